@@ -3,7 +3,8 @@
 From Coq Require Import NArith ZArith List Bool String Sorting.Sorted.
 From Verif Require Import Base.Chars Base.StrX
      Saveframe.Select Saveframe.Vars Saveframe.File Saveframe.Save Saveframe.Reader
-     Saveframe.SelectProofs Saveframe.VarsProofs Saveframe.SaveProofs Saveframe.ReaderProofs.
+     Saveframe.SelectProofs Saveframe.VarsProofs Saveframe.SaveProofs Saveframe.ReaderProofs
+     Saveframe.ValidateProofs Base.StrXProofs.
 Import ListNotations.
 
 (* ------------------------------------------------------------------------------------------
@@ -173,6 +174,35 @@ Theorem C17_validate_frames_no_oracle_error : forall script a, validate_frames s
 Proof. exact validate_frames_no_oracle_error. Qed.
 Print Assumptions C17_validate_frames_no_oracle_error.
 
+(* surface syntax: 'file_regex:line:function' (components without ':' ',' '..' and outer blanks; the
+   line text empty or something int() reads) denotes the pattern it spells; 'p..q' the RANGE, 'p..'
+   the open range, a list of two or more patterns the LIST *)
+Theorem C17_validate_single : forall script re lt fn ln,
+  re <> [] -> no_sep c_colon re -> no_sep c_colon lt -> no_sep c_colon fn -> line_rel lt ln ->
+  let s := render re lt fn in
+  no_sep c_comma s -> has_dd s = false -> strip s = s ->
+  validate_frames script (FStr s) = Ok (SList [PPat (mkPat re ln fn)]).
+Proof. exact validate_single. Qed.
+Print Assumptions C17_validate_single.
+
+Theorem C17_validate_range : forall script re lt fn ln re2 lt2 fn2 ln2,
+  re <> [] -> no_sep c_colon re -> no_sep c_colon lt -> no_sep c_colon fn -> line_rel lt ln ->
+  re2 <> [] -> no_sep c_colon re2 -> no_sep c_colon lt2 -> no_sep c_colon fn2 -> line_rel lt2 ln2 ->
+  let s1 := render re lt fn in
+  let s2 := render re2 lt2 fn2 in
+  no_sep c_comma s1 -> has_dd s1 = false -> ends_not_dot s1 -> strip s1 = s1 ->
+  no_sep c_comma s2 -> has_dd s2 = false -> strip s2 = s2 ->
+  validate_frames script (FStr (s1 ++ c_dot :: c_dot :: s2)) = Ok (SRange (PPat (mkPat re ln fn)) (PPat (mkPat re2 ln2 fn2)))
+  /\ validate_frames script (FStr (s1 ++ [c_dot; c_dot])) = Ok (SOpenRange (mkPat re ln fn)).
+Proof. exact validate_range. Qed.
+Print Assumptions C17_validate_range.
+
+Theorem C17_validate_list : forall x y l p q ps,
+  Forall2 rendered (x :: y :: l) (p :: q :: ps) ->
+  validate_frames false (FList (x :: y :: l)) = Ok (SList (map PPat (p :: q :: ps))).
+Proof. exact validate_list. Qed.
+Print Assumptions C17_validate_list.
+
 (* the whole call: a successful saveframe leaves the umask as before and a file holding one entry per
    selected frame, keyed by distance (distinct keys), with the frame's own metadata and its filtered
    locals; a refused call leaves the file system untouched *)
@@ -298,3 +328,13 @@ Proof. vm_compute. reflexivity. Qed.
 Example C17_nonvacuous_mode :
   open_file_and_dump 7%nat true true (mkFs 63%N None) = (Saved, mkFs 63%N (Some (420%N, CData 7%nat))).
 Proof. vm_compute. reflexivity. Qed.
+Example C17_nonvacuous_validate :
+  let re := dec "pkg/m0\.py$"%string in let lt := dec "12"%string in let fn := dec "K.run"%string in
+  re <> [] /\ no_sep c_colon re /\ no_sep c_colon lt /\ no_sep c_colon fn /\ line_rel lt (Some 12%Z) /\
+  no_sep c_comma (render re lt fn) /\ has_dd (render re lt fn) = false /\ strip (render re lt fn) = render re lt fn /\
+  ends_not_dot (render re lt fn).
+Proof.
+  cbv zeta. split; [discriminate |]. repeat split; try (vm_compute; reflexivity);
+    try (unfold no_sep; repeat constructor).
+  exists 12%Z. split; vm_compute; reflexivity.
+Qed.
